@@ -221,6 +221,100 @@ fn completion_clause(u: &Unit, unit: &Value, p: &bpaf::OptionParser<Val>, argv: 
     }
 }
 
+// ------------------------------------------------------------------------------------------
+// a repeated adjacent group of two positionals beside a switch: blocks may start on either side
+// of `--`; right of it everything is a word
+// ------------------------------------------------------------------------------------------
+fn pospair_opts(strict_first: bool) -> Opts {
+    let pos = |m: &str, strict: Strict| P::Pos { ty: Ty::Os, strict, metavar: m.into(), help: None };
+    let g = P::Adj(vec![pos("A", if strict_first { Strict::Strict } else { Strict::Any }), pos("B", Strict::Any)]).many();
+    Opts::new(P::Seq(vec![P::Switch(Names::short('v')), g]))
+}
+
+/// Some(Ok(value)) / Some(Err) where the outcome is prescribed, None elsewhere
+fn pospair_model(strict_first: bool, argv: &[Tok]) -> Option<Result<Val, ()>> {
+    let dd = argv.iter().position(|t| t.0 == b"--");
+    let mut v = 0;
+    // runs of neighbouring words; `-v` left of the separator and the separator itself end a run
+    let mut runs: Vec<Vec<Tok>> = vec![vec![]];
+    for (i, t) in argv.iter().enumerate() {
+        let right = dd.map_or(false, |d| i > d);
+        if Some(i) == dd {
+            runs.push(vec![]);
+        } else if !right && t.0 == b"-v" {
+            v += 1;
+            runs.push(vec![]);
+        } else if !right && t.0.starts_with(b"-") && t.0 != b"-" {
+            return Some(Err(())); // a foreign option left of the separator
+        } else {
+            if strict_first && !right {
+                return None; // strict members left of the separator: not this family's business
+            }
+            runs.last_mut().unwrap().push(t.clone());
+        }
+    }
+    if v > 1 {
+        return Some(Err(()));
+    }
+    let words: usize = runs.iter().map(|r| r.len()).sum();
+    if words % 2 == 1 {
+        return Some(Err(()));
+    }
+    if runs.iter().any(|r| r.len() % 2 == 1) {
+        return None; // a block would have to span a switch or the separator
+    }
+    let pairs: Vec<Val> = runs.iter().flat_map(|r| r.chunks(2).map(|c| Val::T(vec![Val::S(c[0].clone()), Val::S(c[1].clone())])).collect::<Vec<_>>()).collect();
+    Some(Ok(Val::T(vec![Val::B(v == 1), Val::L(pairs)])))
+}
+
+fn run_pospair(strict_first: bool, len: usize, unit: &Value, only: Option<&[Tok]>, ctx: &mut Ctx) {
+    let p = match build_checked(&pospair_opts(strict_first)) {
+        Ok(p) => p,
+        Err(_) => return,
+    };
+    let mut one = |argv: &[Tok], ctx: &mut Ctx| {
+        ctx.begin_case(|| json!({"argv": argv}));
+        ctx.s.evaluations += 1;
+        ctx.s.states += 1;
+        let m = match pospair_model(strict_first, argv) {
+            Some(m) => m,
+            None => {
+                ctx.s.skipped += 1;
+                return;
+            }
+        };
+        let r = run(&p, argv);
+        let ok = match (&m, &r) {
+            (Ok(a), Outcome::Value(b)) => a == b,
+            (Err(()), Outcome::Stderr(t)) => !t.trim().is_empty(),
+            _ => false,
+        };
+        if ok {
+            ctx.s.nontrivial += 1;
+            ctx.s.validated += 1;
+            ctx.count("adjacent-positional-pairs-judged");
+        } else {
+            let mut sig = BTreeMap::new();
+            sig.insert("clause".to_string(), "adjacent-group-of-positionals-around-the-separator".to_string());
+            sig.insert("observed".to_string(), r.class().to_string());
+            ctx.violation(Violation { property: "C09".into(), rule: "separator-splits-the-line".into(), sig, unit: unit.clone(), case: json!({"argv": argv}), expected: match &m { Ok(v) => format!("{:?}", v), Err(()) => "a failure with a message".into() }, observed: r.brief(), size: argv.len() * 1000 });
+        }
+    };
+    if let Some(argv) = only {
+        one(argv, ctx);
+        return;
+    }
+    let alpha = toks(&["a", "b", "--", "-v", "-x", "--help"]);
+    tree(&alpha, len, &mut |argv| {
+        // (--help left of the separator is C10's business)
+        let dd = argv.iter().position(|t| t.0 == b"--").unwrap_or(argv.len());
+        if !argv[..dd].iter().any(|t| t.0 == b"--help") {
+            one(argv, ctx);
+        }
+        true
+    });
+}
+
 impl Check for C09 {
     fn id(&self) -> &'static str {
         "C09"
@@ -250,9 +344,16 @@ impl Check for C09 {
             let sub = fam::leaf(vec![], tail.clone());
             out.push(Unit { level: fam::leaf(vec![fam::named(0, Kind::Switch, 1, seed)], Tail::Cmds { cmds: vec![CmdDef { name: "cmd".into(), shorts: vec![], longs: vec![], level: sub }], wrap: CmdWrap::Required }), len, literal: false, decor: 0 });
         }
-        out.into_iter().map(|u| serde_json::to_value(u).unwrap()).collect()
+        let mut out: Vec<Value> = out.into_iter().map(|u| serde_json::to_value(u).unwrap()).collect();
+        out.push(json!({"pospair": false, "len": tier.pick(6, 7)}));
+        out.push(json!({"pospair": true, "len": tier.pick(6, 7)}));
+        out
     }
     fn run_unit(&self, unit: &Value, ctx: &mut Ctx) {
+        if let Some(b) = unit.get("pospair").and_then(|b| b.as_bool()) {
+            run_pospair(b, unit["len"].as_u64().unwrap_or(5) as usize, unit, None, ctx);
+            return;
+        }
         let u: Unit = serde_json::from_value(unit.clone()).unwrap();
         let p = match build_checked(&unit_opts(&u)) {
             Ok(p) => p,
@@ -285,12 +386,24 @@ impl Check for C09 {
             }
             judge_unit(&u, unit, &model, &p, argv, &env, ctx);
             completion_clause(&u, unit, &p, argv, ctx);
+            // typed words that are a fresh prefix of every name / of the command names
+            if argv.len() < u.len && argv.iter().any(|t| t.0 == b"--") {
+                for tw in ["", "c"] {
+                    let mut a2 = argv.to_vec();
+                    a2.push(Tok::s(tw));
+                    completion_clause(&u, unit, &p, &a2, ctx);
+                }
+            }
             true
         });
     }
     fn replay(&self, unit: &Value, case: &Value, ctx: &mut Ctx) {
-        let u: Unit = serde_json::from_value(unit.clone()).unwrap();
         let argv: Vec<Tok> = serde_json::from_value(case["argv"].clone()).unwrap_or_default();
+        if let Some(b) = unit.get("pospair").and_then(|b| b.as_bool()) {
+            run_pospair(b, 0, unit, Some(&argv), ctx);
+            return;
+        }
+        let u: Unit = serde_json::from_value(unit.clone()).unwrap();
         if let Ok(p) = build_checked(&unit_opts(&u)) {
             let model = Model::new(&u.level);
             ctx.s.evaluations += 1;
@@ -302,7 +415,7 @@ impl Check for C09 {
         }
     }
     fn rule(&self) -> String {
-        "definitions = every unambiguous positional suffix of 0..3 items (required* then required|optional|many|some; plus a non_strict optional / defaulted (fallback) / variadic positional followed by strict items) with every strictness assignment {unrestricted, strict, non_strict}, beside nothing / a switch / an optional argument / below a sub-command / positionals with help attached after the strictness annotation, hidden non-strict positionals, an optional literal +ext declared anywhere() (taken from either side of `--` before the positionals look); every vector of the token tree over {v, w, -, --, --help, -z, --bpaf-complete-rev=8 (the parser's own reserved option: judged right of `--` only, where it is data), declared names, --name, --name=--, command name}; judged by the reference scanner: first `--` splits, is never delivered, right side is verbatim positional data (so `-- --help` is data), left words go to unrestricted/non_strict positionals and right words to unrestricted/strict ones in order; `--name --` fails, `--name=--` delivers `--`; plus, in completion mode (revision 0), every vector with the separator left of the word being typed: no option or command name among the candidates; state = (definition, vector)".into()
+        "definitions = every unambiguous positional suffix of 0..3 items (required* then required|optional|many|some; plus a non_strict optional / defaulted (fallback) / variadic positional followed by strict items) with every strictness assignment {unrestricted, strict, non_strict}, beside nothing / a switch / an optional argument / below a sub-command / positionals with help attached after the strictness annotation, hidden non-strict positionals, an optional literal +ext declared anywhere() (taken from either side of `--` before the positionals look); every vector of the token tree over {v, w, -, --, --help, -z, --bpaf-complete-rev=8 (the parser's own reserved option: judged right of `--` only, where it is data), declared names, --name, --name=--, command name}; judged by the reference scanner: first `--` splits, is never delivered, right side is verbatim positional data (so `-- --help` is data), left words go to unrestricted/non_strict positionals and right words to unrestricted/strict ones in order; `--name --` fails, `--name=--` delivers `--`; plus, in completion mode (revision 0), every vector with the separator left of the word being typed: no option or command name among the candidates; state = (definition, vector); completion right of the separator is also asked for the typed words `` and `c` (fresh prefixes of every name / of the command name); plus a repeated adjacent group of two positionals (first member unrestricted / strict) beside a switch: lines whose runs of neighbouring words all have even length give the pairs in order, an odd number of words fails".into()
     }
     fn bounds(&self, tier: Tier) -> Value {
         json!({"positionals": "0..3", "vector_length": tier.pick("5 (4 with three positionals; +1 for positional-only levels)", "6 (7 for positional-only levels)")})
